@@ -181,6 +181,16 @@ Definition moasha_on_trial_complete (prio : list vec -> list Q) (rf : Q)
            (b : bracket) (t : Z) (cur_iter : Q) (m : vec) : bracket :=
   fst (bracket_on_result prio rf b t cur_iter m).
 
+(* A history of one bracket: reports and completions in the order the scheduler sees them *)
+Inductive mevent := MReport (t : Z) (it : Q) (m : vec) | MComplete (t : Z) (it : Q) (m : vec).
+Definition moasha_step (prio : list vec -> list Q) (rf max_t : Q) (b : bracket) (e : mevent) : bracket :=
+  match e with
+  | MReport t it m => fst (moasha_on_trial_result prio rf max_t b t it m)
+  | MComplete t it m => moasha_on_trial_complete prio rf b t it m
+  end.
+Definition moasha_run (prio : list vec -> list Q) (rf max_t : Q) (b : bracket) (evs : list mevent) : bracket :=
+  fold_left (moasha_step prio rf max_t) evs b.
+
 (* ---- NonDominatedPriority.priority_unsafe (multiobjective_priority.py, after fix bd08f9a) ----
      sorted_indices = nondominated_sort(X, dim, max_items)
      priorities = np.full(n, len(sorted_indices)); priorities[sorted_indices] = arange(len(sorted_indices)) *)
